@@ -392,7 +392,7 @@ C09_CrashAtomic_C ==
         \* by this commit happens to complete a block of someone else that was held back (then that block, whole,
         \* becomes visible too: still no mixture, and covered by the clauses above)
         /\ (E.op = "Commit" /\ FreshOK(cs[1].fresh) /\ FreshOK(cs[n].fresh)
-               /\ Derive(f).ccn \subseteq (Derive(cs[1].fresh).ccn \cup Rng(E.res.val)) =>
+               /\ Derive(f).ccn \subseteq (Derive(cs[1].fresh).ccn \cup (IF OkRes /\ E.x.committed THEN Rng(E.res.val) ELSE {})) =>
                View(f) \in {View(cs[1].fresh), View(cs[n].fresh)})
 C09_FailedCommit_A == Op("Commit") /\ Has2 /\ \E j \in DOMAIN E.x.writes : E.x.writes[j].out = "failed"
 C09_FailedCommit_C ==
